@@ -39,6 +39,13 @@ func (e *Evaluator) setLastEvaluatedT(
 	t *base.T,
 ) {
 
+	// no value at all (a token could not be read): nil
+	if t == nil {
+		p.SetLastEvaluatedT(base.MakeNil())
+
+		return
+	}
+
 	switch t.GetType() {
 	case base.UNKNOWN:
 		switch {
